@@ -89,9 +89,11 @@ class MConn:
         tgt_alive = tgt.alive
         destroyed = None
         if tgt.id == 1 and tgt.gen == 0 and m['name'] == 'delete_id' and m['args']:
-            destroyed = self.latest(m['args'][0][1])
-            destroyed.alive = False
-            destroyed.destroyed = t_rel_us
+            if m['args'][0][1] in self.db:
+                destroyed = self.latest(m['args'][0][1])
+                destroyed.alive = False
+                destroyed.destroyed = t_rel_us
+            # else: the object was created before the log started - the line is a message like any other, nothing to annotate
         argobjs, args_alive, created, implicit = [], [], [], []
         bind_type = None
         if tgt.iface == 'wl_registry' and m['name'] == 'bind':
